@@ -529,6 +529,116 @@ fn configs(tier: Tier) -> Vec<Cfg> {
     v
 }
 
+
+// ---------------------------------------------------------------------------------------------
+// the same promise seen from the whole processor: process_minidump (all threads walked concurrently over one
+// symbolizer, nothing dropped by the harness) asks the supplier once per module, and the counters settle.
+
+struct CountingSup {
+    delays: Vec<usize>,
+    calls: Arc<Mutex<Vec<String>>>,
+}
+struct SelfWakingDelay(usize);
+impl std::future::Future for SelfWakingDelay {
+    type Output = ();
+    fn poll(mut self: std::pin::Pin<&mut Self>, cx: &mut std::task::Context<'_>) -> std::task::Poll<()> {
+        if self.0 == 0 {
+            std::task::Poll::Ready(())
+        } else {
+            self.0 -= 1;
+            cx.waker().wake_by_ref();
+            std::task::Poll::Pending
+        }
+    }
+}
+#[async_trait::async_trait]
+impl SymbolSupplier for CountingSup {
+    async fn locate_symbols(&self, m: &(dyn Module + Sync)) -> Result<LocateSymbolsResult, SymbolError> {
+        let i = {
+            let mut c = self.calls.lock().unwrap();
+            c.push(m.code_file().to_string());
+            c.len() - 1
+        };
+        SelfWakingDelay(self.delays[i % self.delays.len()]).await;
+        if m.code_file().contains("app") {
+            Ok(LocateSymbolsResult { symbols: SymbolFile::from_bytes(SYM_OK).expect("symbols"), extra_debug_info: None })
+        } else {
+            Err(SymbolError::NotFound)
+        }
+    }
+    async fn locate_file(&self, _m: &(dyn Module + Sync), _k: FileKind) -> Result<std::path::PathBuf, FileError> {
+        Err(FileError::NotFound)
+    }
+}
+fn poll_to_completion<F: std::future::Future>(f: F) -> F::Output {
+    struct Noop;
+    impl std::task::Wake for Noop {
+        fn wake(self: Arc<Self>) {}
+    }
+    let w = std::task::Waker::from(Arc::new(Noop));
+    let mut cx = std::task::Context::from_waker(&w);
+    let mut f = std::pin::pin!(f);
+    for _ in 0..1_000_000 {
+        if let std::task::Poll::Ready(v) = f.as_mut().poll(&mut cx) {
+            return v;
+        }
+    }
+    panic!("harness: process_minidump stays pending under a self-waking supplier");
+}
+/// dumps: 1..3 threads whose innermost frames lie in module app (symbols) / lib (no symbols) in every combination
+fn processor_space() -> Space {
+    use vh::procgen::{self, CpuK, Model, ThreadM};
+    const MAXD: u64 = 3; // delays 0..2 for each of the first 4 supplier calls
+    let radices = [2u64, 2, 3, MAXD, MAXD, MAXD, MAXD];
+    let len = product(&radices);
+    let lib = procgen::ModM { base: 0x5800_0000, size: 0x10000, name: "c:\\dir\\lib.dll".into() };
+    let run = move |idx: u64, l: &mut Local| {
+        let d = unrank(idx, &radices);
+        let nthreads = d[2] as usize + 1;
+        let mut m = Model::new(CpuK::Amd64, 0x8201);
+        for t in 0..nthreads {
+            let in_lib = [d[0], d[1], (d[0] + d[1]) % 2][t] == 1;
+            m.threads.push(ThreadM { tid: t as u32 + 1, ctx_ok: true, ip: if in_lib { lib.base + 0x40 } else { procgen::APP_BASE + 0x1008 }, sp: procgen::STACK_BASE + 0x1000 * t as u64 + 8 });
+        }
+        m.modules = vec![procgen::app_module(), lib.clone()];
+        let bytes = procgen::build(&m);
+        let dump = minidump::Minidump::read(&bytes[..]).expect("harness: dump");
+        let log = Arc::new(Mutex::new(vec![]));
+        let sup = CountingSup { delays: d[3..7].iter().map(|&x| x as usize).collect(), calls: log.clone() };
+        let symbolizer = minidump_unwind::Symbolizer::new(sup);
+        l.eval();
+        let r = guard(|| poll_to_completion(minidump_processor::process_minidump(&dump, &symbolizer)));
+        let detail = || json!({"threads": nthreads, "innermost_frames_in_lib": [d[0], d[1]], "supplier_delays": d[3..7]});
+        match r {
+            Err(p) => {
+                if p.msg.contains("harness:") {
+                    panic!("{}", p.msg);
+                }
+                l.panic_violation(&p, detail());
+                return;
+            }
+            Ok(Err(e)) => panic!("harness: process_minidump failed: {e:?}"),
+            Ok(Ok(_)) => {}
+        }
+        let stats = symbolizer.pending_stats();
+        let calls = log.lock().unwrap().clone();
+        let mut per: BTreeMap<&str, usize> = BTreeMap::new();
+        for c in &calls {
+            *per.entry(c.as_str()).or_default() += 1;
+        }
+        let distinct = per.len() as u64;
+        l.outcome(&format!("processor: {distinct} module(s) asked for"));
+        l.distinct(&("processor", &calls, d[3..7].to_vec()));
+        if let Some((m, n)) = per.iter().find(|(_, n)| **n > 1) {
+            l.violation("c12:processor:supplier-asked-more-than-once", format!("process_minidump asked the supplier {n} times for {m} (call log {calls:?})"), detail());
+        }
+        if stats.symbols_requested != stats.symbols_processed || stats.symbols_requested != distinct {
+            l.violation("c12:processor:pending-counters", format!("after process_minidump: requested {} processed {} with {distinct} distinct module(s) asked for", stats.symbols_requested, stats.symbols_processed), detail());
+        }
+    };
+    Space::new("process_minidump", len, run, move |idx| json!({"class": "process_minidump", "index": idx}))
+}
+
 fn main() {
     run_check("C12", |ctx| {
         let cfgs = Arc::new(configs(ctx.tier));
@@ -549,6 +659,7 @@ fn main() {
                 .chunked(1)
                 .wall(600_000),
         );
+        def.spaces.push(processor_space());
         def.finish = Some(Box::new(|total, extra| {
             let g = |k: &str| total.counters.get(k).copied().unwrap_or(0);
             extra.insert("states".into(), json!(g("states").max(1)));
